@@ -35,11 +35,11 @@ type c07Side struct {
 	readChecked int
 
 	// selected-pair counter baselines
-	selKey                                 string
-	basePS, basePR                         uint32
-	baseBS, baseBR                         uint64
-	tallyPS, tallyPR                       uint32
-	tallyBS, tallyBR                       uint64
+	selKey           string
+	basePS, basePR   uint32
+	baseBS, baseBR   uint64
+	tallyPS, tallyPR uint32
+	tallyBS, tallyBR uint64
 }
 
 // runC07: application data interleaved with connectivity checks; writes before/after selection,
